@@ -63,6 +63,6 @@ Example C09_ex :
         [("__h0", FLitInt 5);
          ("f0", FFormula [PExpr (EAdd (EVar "__h0") (EInt 1))]);
          ("__h1", FNested (Tpl "B" None None false [("f1", FLitInt 7)] []))] []);
-     SObj (Tpl "__H" None None false [("f0", FLitInt 1)] [])]) 1
+     SObj (Tpl "__H" None None false [("f0", FLitInt 1)] [])] []) 1
   = Ok [("B", [("id", OInt 1); ("f1", OInt 7)]); ("A", [("id", OInt 1); ("f0", OInt 6)])].
 Proof. vm_compute. reflexivity. Qed.
